@@ -10,11 +10,18 @@ import JominiModel.Proofs.TextTapeTotal
 import JominiModel.Proofs.TextTapeFaithful2
 import JominiModel.Proofs.TextTapeFaithful3
 import JominiModel.Proofs.TextTapeBlank
+import JominiModel.Proofs.TextTapeFaithfulOne
 import JominiModel.Generated.Tables
 /-
 C01 — Text tape mirrors the document's structure regardless of layout.
 Only property theorems live here; helper lemmas are in `Proofs/TextTape*.lean`.
 All theorems are about the model `Model/TextTape.lean` of /repo/src/text/tape.rs.
+
+The "freshly created or reused tape" clause of C01 is vacuous at the model level: the model has
+no tape object, `parse` is a function of the input bytes alone (`TokenTape::clear` + `parse` is the
+same function).  The clause is covered on the real code by the harness op `treuse` (one `TextTape`
+reused across all generated inputs, compared with a fresh parse of each) and by C19's reused-tape
+oracle.
 -/
 namespace Jomini.Props.C01
 open Jomini Jomini.TextTape
@@ -214,6 +221,108 @@ theorem C01_layout_independent_tree_partial (fs fs' : JFields) (gt gt' : Bytes)
     ∃ T T', parse (jrenderF fs ++ gt) = .ok T false ∧ parse (jrenderF fs' ++ gt') = .ok T' false ∧
       T.map Tok.erase = T'.map Tok.erase :=
   layout_independent_tree fs fs' gt gt' hgt hgt' hv hv' hb hb' hc
+
+/-! ### C01_faithful / C01_layout_independent as ONE theorem over one document type
+
+`JFields` (Spec/TextTape.lean) is the document type: fields `key op value`, implicit `=`
+(`key { … }`), ghost objects `{}`, headers (`key = rgb { … }`), parameter blocks (`[[p] v]`,
+`[[!p] k = v … ]`); values are scalars (quoted, unquoted, `@var`, `@[ … ]`), empty containers,
+objects, arrays of scalars / objects / arrays, containers that start with a ghost `{}`, and mixed
+containers (`{ a=b … c d e }`); any depth; any layout (`Blank` gaps: blanks, CR/LF, `;`, comments).
+Fragments 1 and 2 are instances (`C01_faithful_covers_flat`, `C01_faithful_covers_nested`).
+
+Left out of the document type (hence `_partial`), with what the parser does there as examples
+below:
+* a nested object whose FIRST field is a header field (`{ a = rgb { 1 } … }`) or a parameter block
+  (`{ [[p] v] … }`) — later fields may be; implicit `=` on a first field does not exist
+  (`{ a { b } }` is an array of `a` and `{ b }`); a ghost `{}` in front of the first field IS covered;
+* the array part of a mixed container holding anything but scalars (containers, `k = v` groups with
+  their `Operator(Equal)` tokens), and arrays that turn mixed (`{ 1 2 <3 }`, `{ 1 a=b }`);
+* a mixed top level; the tolerated malformations (a stray `}` at top level, the missing last `}`,
+  `]` closing an ordinary object / `}` closing a parameter block); parameter blocks whose value
+  is followed by `{` (header);
+* the reused tape (vacuous in the model, see the top of this file).
+All of these are inside `C01_parse_total`, `C01_C06_text_inv`, `C17_parsed_tape_wf` /
+`C16_parsed_tape_wf` (every accepted tape is structurally sound and regular) and the `ttape` /
+`tlay` correspondence ops; what is missing for them is only the statement of WHICH regular tape
+comes out. -/
+
+/-- **C01_faithful** (one theorem, one document type): a document under ANY valid layout parses,
+and its tape is, up to the scalar positions, exactly the document's content — keys, operators,
+scalar bytes with their quotedness, header and parameter tokens, container kinds (object / array /
+mixed) and nesting (`end` links). -/
+theorem C01_faithful_partial (fs : JFields) (gt : Bytes) (hgt : Blank gt) (hv : JValidF fs gt)
+    (hb : hasBom (jrenderF fs ++ gt) = false) :
+    ∃ T, parse (jrenderF fs ++ gt) = .ok T false ∧ T.map Tok.erase = ktapeF (kcontentF fs) 0 :=
+  faithful_tree fs gt hgt hv hb
+
+/-- **C01_layout_independent**, the corollary: two layouts of the same content give the same
+tape up to positions. -/
+theorem C01_layout_independent_partial (fs fs' : JFields) (gt gt' : Bytes)
+    (hgt : Blank gt) (hgt' : Blank gt') (hv : JValidF fs gt) (hv' : JValidF fs' gt')
+    (hb : hasBom (jrenderF fs ++ gt) = false) (hb' : hasBom (jrenderF fs' ++ gt') = false)
+    (hc : kcontentF fs = kcontentF fs') :
+    ∃ T T', parse (jrenderF fs ++ gt) = .ok T false ∧ parse (jrenderF fs' ++ gt') = .ok T' false ∧
+      T.map Tok.erase = T'.map Tok.erase := by
+  obtain ⟨T, h1, h2⟩ := C01_faithful_partial fs gt hgt hv hb
+  obtain ⟨T', h1', h2'⟩ := C01_faithful_partial fs' gt' hgt' hv' hb'
+  exact ⟨T, T', h1, h1', by rw [h2, h2', hc]⟩
+
+example : ∃ T, parse (jrenderF exampleMixed ++ [10]) = .ok T false ∧
+    T.map Tok.erase = ktapeF (kcontentF exampleMixed) 0 :=
+  C01_faithful_partial exampleMixed [10] exampleMixed_valid.2.1 exampleMixed_valid.1 exampleMixed_valid.2.2
+
+/-- fragment 1 (flat documents) is an instance of `C01_faithful_partial`: same bytes, valid, same
+expected tape. -/
+theorem C01_faithful_covers_flat (fs : List LField) (gt : Bytes) (hv : ValidFlat fs gt) :
+    jrenderF (flatJ fs) ++ gt = renderFlat fs gt ∧ JValidF (flatJ fs) gt ∧ Blank gt ∧
+      jtapeF (flatJ fs) 0 gt = tapeFlat fs gt :=
+  ⟨flatJ_render fs gt, (flatJ_valid fs gt hv).1, (flatJ_valid fs gt hv).2, flatJ_tape fs 0 gt⟩
+
+example : ValidFlat [] [10] := by
+  simp only [ValidFlat]; exact .ws 10 _ (by decide +kernel) .nil
+
+/-- fragment 2 (nested objects) is an instance of `C01_faithful_partial`. -/
+theorem C01_faithful_covers_nested (fs : LFields) (gt : Bytes) (hv : ValidF fs gt) :
+    jrenderF fs.toJ = renderF fs ∧ JValidF fs.toJ gt ∧ jtapeF fs.toJ 0 gt = tapeF fs 0 gt :=
+  ⟨toJ_renderF fs, toJ_validF fs gt hv, toJ_tapeF fs 0 gt⟩
+
+example : ValidF .nil [10] := by simp [ValidF]
+
+/-! what the parser does on the shapes outside the document type -/
+
+/-- `x={a {b}}`: no implicit `=` on a first field — an array of `a` and `{b}` -/
+example : parse [120, 61, 123, 97, 32, 123, 98, 125, 125] =
+    .ok [.unquoted ⟨9, [120]⟩, .array 6 false, .unquoted ⟨6, [97]⟩, .array 5 false, .unquoted ⟨3, [98]⟩,
+      .endTok 3, .endTok 1] false := by decide +kernel
+
+/-- `x={a=rgb{1} c=d}`: a header on the first field -/
+example : parse [120, 61, 123, 97, 61, 114, 103, 98, 123, 49, 125, 32, 99, 61, 100, 125] =
+    .ok [.unquoted ⟨16, [120]⟩, .object 9 false, .unquoted ⟨13, [97]⟩, .header ⟨11, [114, 103, 98]⟩,
+      .array 6 false, .unquoted ⟨7, [49]⟩, .endTok 4, .unquoted ⟨4, [99]⟩, .unquoted ⟨2, [100]⟩,
+      .endTok 1] false := by decide +kernel
+
+/-- `x={[[p] v] c=d}`: a parameter block as first field (the container is an object) -/
+example : parse [120, 61, 123, 91, 91, 112, 93, 32, 118, 93, 32, 99, 61, 100, 125] =
+    .ok [.unquoted ⟨15, [120]⟩, .object 6 false, .parameter ⟨10, [112]⟩, .unquoted ⟨7, [118]⟩,
+      .unquoted ⟨4, [99]⟩, .unquoted ⟨2, [100]⟩, .endTok 1] false := by decide +kernel
+
+/-- `x={a=b c d {e} f}`: a container in the array part of a mixed container -/
+example : parse [120, 61, 123, 97, 61, 98, 32, 99, 32, 100, 32, 123, 101, 125, 32, 102, 125] =
+    .ok [.unquoted ⟨17, [120]⟩, .object 11 true, .unquoted ⟨14, [97]⟩, .unquoted ⟨12, [98]⟩,
+      .mixedContainer, .unquoted ⟨10, [99]⟩, .unquoted ⟨8, [100]⟩, .array 9 false, .unquoted ⟨5, [101]⟩,
+      .endTok 7, .unquoted ⟨2, [102]⟩, .endTok 1] false := by decide +kernel
+
+/-- `x={1 2 <3}`: an operator inside an array — the array turns mixed: `MixedContainer` goes in
+front of the scalar before the operator, the `Operator` token is kept, the `Array` is flagged -/
+example : parse [120, 61, 123, 49, 32, 50, 32, 60, 51, 125] =
+    .ok [.unquoted ⟨10, [120]⟩, .array 7 true, .unquoted ⟨7, [49]⟩, .mixedContainer, .unquoted ⟨5, [50]⟩,
+      .operator .lt, .unquoted ⟨2, [51]⟩, .endTok 1] false := by decide +kernel
+
+/-- `x={1 <2}`: an operator behind the FIRST scalar makes the container an object -/
+example : parse [120, 61, 123, 49, 32, 60, 50, 125] =
+    .ok [.unquoted ⟨8, [120]⟩, .object 5 false, .unquoted ⟨5, [49]⟩, .operator .lt, .unquoted ⟨2, [50]⟩,
+      .endTok 1] false := by decide +kernel
 
 /-- C01_faithful, headers (`rgb { … }`, `hsv { … }`, `LIST { … }`): in `key op h { … }` the unquoted
 scalar `h` becomes the `Header` token of the container that follows; the rest of the document
